@@ -49,7 +49,7 @@ pub fn check(c: &Case) -> Result<Vec<&'static str>, Failure> {
     colored::control::set_override(use_color);
     let text = c.text.clone();
     let file = c.file.clone();
-    let r = std::panic::catch_unwind(move || {
+    let r = verif_core::util::catch(move || {
         let p = PrettyParseError::from_parse_error(&err, &text, file.as_deref());
         format!("{}", p)
     });
